@@ -3,6 +3,7 @@ mod gen;
 mod modes;
 mod prog;
 mod term;
+mod valmode;
 mod witness;
 
 fn arg<T: std::str::FromStr>(args: &[String], name: &str, default: T) -> T {
@@ -18,6 +19,10 @@ fn main() {
     let mode = args.get(1).map(|s| s.as_str()).unwrap_or("");
     let cs = match mode {
         "witness" => { witness::run(); return }
+        "val" => { valmode::run(&a); return }
+        "c19" => { valmode::run_c19(&a); return }
+        "c20" => { valmode::run_c20(&a); return }
+        "c06nest" => { let d: usize = args[2].parse().unwrap(); let k: usize = args[3].parse().unwrap(); modes::c06_nest(d, k, &args[4]); return }
         "c01" => modes::c01(&a),
         "c14" => modes::c14(&a),
         "c02" => modes::c02(&a),
@@ -28,15 +33,18 @@ fn main() {
         "c10" => modes::c10(&a),
         "c11" => modes::c11(&a),
         "c12" => modes::c12(&a),
+        "c12d" => modes::c12d(&a),
         "c13" => modes::c13(&a),
         "c15" => modes::c15(&a),
         "c05" => modes::c05(&a),
         "c09" => modes::c09(&a),
         "c10s" => modes::c10s(&a),
         "c18" => modes::c18(&a),
+        "c06" => modes::c06(&a),
         _ => { eprintln!("usage: harness <mode> [--seed S] [--n N] [--out DIR] [--shard K] [--thorough]"); std::process::exit(2) }
     };
     cs.write(&a.out, a.shard).expect("write cases");
     let bad = cs.cases.iter().filter(|c| c.oracle_ok == Some(false)).count();
-    println!("mode={mode} cases={} tables={} oracle_failures={bad}", cs.cases.len(), cs.tables.len());
+    let extra = modes::EXTRA.with(|e| e.borrow().clone());
+    println!("mode={mode} cases={} tables={} oracle_failures={bad} {extra}", cs.cases.len(), cs.tables.len());
 }
